@@ -143,3 +143,42 @@ Example C14_ex_x : wf_hist (sinit 3 0) [Append [1;2]; Invalidate 1; Append [3;4;
    samples_lb b = 1 /\ samples_ub b = 4 /\ samples_to_index b 2 = 1 /\ nth 1 (buf b) 0 = 4) /\
   wf_hist_x (sinit 3 0) [Append [1;2;3;4;5]; ReadS (Some 4) (Some 2)] = true.
 Proof. vm_compute. repeat split; reflexivity. Qed.
+
+(* ====================================================================================
+   Extension: zero-length appends (psiaudio 0eafd08: append_data returns at once on an empty chunk).
+   Definitions and proofs in Buffer/ProofsXE.v. *)
+From PV Require Import Buffer.ProofsXE.
+
+(* the refinement for histories that, besides everything C14_refines_spec_x covers, contain `Append []` anywhere
+   (wf_hist_e; every wf_hist_x history is one: ProofsXE.wf_hist_x_wf_hist_e) *)
+Theorem C14_refines_spec_e : forall c fill ops, 1 <= c -> wf_hist_e (sinit c fill) ops = true ->
+  snd (run (binit c fill) ops) = snd (spec_run (sinit c fill) ops).
+Proof. exact refines_spec_e_out. Qed.
+Print Assumptions C14_refines_spec_e.
+
+(* an empty append is a no-op: on every state with a non-negative capacity and valid-start index (a record
+   with a negative one is changed: ProofsXE.append_empty_unconstrained_refuted), on every abstract state
+   that retains at most its capacity, and hence in every state a wf_hist_e history reaches *)
+Theorem C14_empty_append_noop :
+  (forall b, 0 <= cap b -> 0 <= ilb b -> append b [] = b) /\
+  (forall s, slen s - lo s <= scap s -> spec_step s (Append []) = s) /\
+  (forall c fill ops, 1 <= c -> wf_hist_e (sinit c fill) ops = true ->
+     step (fst (run (binit c fill) ops)) (Append []) = (fst (run (binit c fill) ops), ONone) /\
+     spec_step (fst (spec_run (sinit c fill) ops)) (Append []) = fst (spec_run (sinit c fill) ops)).
+Proof. exact empty_append_noop. Qed.
+Print Assumptions C14_empty_append_noop.
+
+(* ... so deleting the empty appends from ANY history (no well-formedness needed) changes neither the final
+   state nor any output (drop_outs removes the None results of the deleted calls), and what is left has none *)
+Theorem C14_empty_append_is_skip : forall c fill ops, 1 <= c ->
+  fst (run (binit c fill) (drop_empty ops)) = fst (run (binit c fill) ops) /\
+  snd (run (binit c fill) (drop_empty ops)) = drop_outs ops (snd (run (binit c fill) ops)) /\
+  forallb (fun o => negb (is_empty_append o)) (drop_empty ops) = true.
+Proof. exact drop_empty_skip. Qed.
+Print Assumptions C14_empty_append_is_skip.
+
+Example C14_ex_e : 1 <= 3 /\
+  wf_hist_e (sinit 3 0) [Append []; Append [1;2;3;4]; Invalidate 3; Append []; ReadS None None] = true /\
+  snd (run (binit 3 0) [Append []; Append [1;2;3;4]; Invalidate 3; Append []; ReadS None None])
+    = [ONone; ONone; ONone; ONone; OData [2; 3]].
+Proof. vm_compute. repeat split; reflexivity || congruence. Qed.
